@@ -81,6 +81,9 @@ def cases(tier, seed):
         out.append({"kind": "tinynull", "cls": "null:tiny_components", "idx": idx, "seed": seed})
         idx += 1
     for k in range(40 if tier == "quick" else 400):
+        out.append({"kind": "laplacian", "cls": "rank:connection_laplacian", "idx": idx, "seed": seed})
+        idx += 1
+    for k in range(40 if tier == "quick" else 400):
         out.append({"kind": "intrank", "cls": "rank:integer_exact", "idx": idx, "seed": seed, "maxd": maxd})
         idx += 1
     for k in range(60 if tier == "quick" else 600):
@@ -97,7 +100,7 @@ def cases(tier, seed):
 
 
 def run_case(spec, ctx, R):
-    {"rank": _rank, "intrank": _intrank, "det": _det, "moore": _moore, "history": _history, "tinynull": _tinynull, "kahan": _kahan}[spec["kind"]](spec, ctx, R)
+    {"rank": _rank, "intrank": _intrank, "det": _det, "moore": _moore, "history": _history, "tinynull": _tinynull, "kahan": _kahan, "laplacian": _laplacian}[spec["kind"]](spec, ctx, R)
 
 
 def _kahan(spec, ctx, R):
@@ -330,6 +333,60 @@ def _rank(spec, ctx, R):
             ctx.check("rank:invertible_invariant", rb == rk, site="prescribed:PAQ", tags=tags, detail={"rank": rk, "rank_PAQ": rb, "svals": sB})
     if spec["idx"] % 53 == 0:
         ctx.sample({"shape": [m, n], "rank": r, "spectrum": s, "A": A})
+
+
+def _laplacian(spec, ctx, R):
+    """Quaternion connection Laplacians L = D - W of forests: edge {a,b} carries a weight w_ab * u_ab (w > 0, u a unit quaternion; W_ba is the
+    conjugate), D_aa = sum of the incident w.  Every tree component is balanced, so an UNGROUNDED component contributes exactly one null vector;
+    grounding (an extra positive amount on one diagonal entry) makes the component definite.  The matrices are Hermitian, weakly diagonally
+    dominant with exact ties in the ungrounded rows, reducible (several components, node labels interleaved) - singular by STRUCTURE, with all
+    diagonal entries non-zero: rank = n - #ungrounded components is generator truth."""
+    rng = gen.rng_for(spec["seed"], "c11lap", spec["idx"])
+    n = int(rng.integers(3, 11))
+    ncomp = int(rng.integers(1 if spec["idx"] % 5 == 0 else 2, min(4, n // 2) + 1)) if n >= 4 else 1
+    perm = rng.permutation(n) if spec["idx"] % 4 == 3 else np.arange(n)      # mostly CONTIGUOUS labelling: a block-diagonal matrix with several singular blocks
+    cuts = sorted(rng.choice(np.arange(1, n), size=ncomp - 1, replace=False).tolist()) if ncomp > 1 else []
+    groups = [g for g in np.split(perm, cuts) if len(g)]
+    units = [np.array(v, dtype=float) for v in ([1, 0, 0, 0], [-1, 0, 0, 0], [0, 1, 0, 0], [0, -1, 0, 0], [0, 0, 1, 0], [0, 0, -1, 0], [0, 0, 0, 1], [0, 0, 0, -1])]
+    hurwitz = spec["idx"] % 3 != 2
+    c = np.zeros((n, n, 4))
+    ungrounded = 0
+    for gi, g in enumerate(groups):
+        shape = ["path", "star", "random_tree"][int(rng.integers(0, 3))]
+        for t in range(1, len(g)):
+            a = int(g[t]); b = int(g[t - 1] if shape == "path" else g[0] if shape == "star" else g[int(rng.integers(0, t))])
+            w = float(rng.choice([1.0, 1.0, 2.0, 3.0, 0.5]))
+            if hurwitz:
+                u = units[int(rng.integers(0, 8))]
+            else:
+                u = rng.standard_normal(4); u /= np.linalg.norm(u)
+            c[a, b] = -w * u
+            c[b, a] = -w * u * np.array([1.0, -1.0, -1.0, -1.0])
+            c[a, a, 0] += w; c[b, b, 0] += w
+        ground = (len(g) == 1) or (rng.random() < 0.3) or (gi == 0 and len(groups) > 2 and spec["idx"] % 2 == 0)
+        if ground:
+            node = int(g[int(rng.integers(0, len(g)))])
+            c[node, node, 0] += float(rng.choice([1.0, 2.0, 0.5]))
+        else:
+            ungrounded += 1
+    A = refq.qa(c)
+    r = n - ungrounded
+    sv = embed.svals(A)
+    if _threshold_ambiguous(sv, n, n) or int(np.sum(sv > 1e-9 * max(sv.max(), 1e-300))) != r:
+        ctx.skip("rank:equals_true_rank", "laplacian: oracle spectrum ambiguous")
+        return
+    tags = ["structured:connection_laplacian", "hurwitz" if hurwitz else "random_units"]
+    ctx.distinct(A, nontrivial=True)
+    ctx.hit("rank:structurally_singular_diagonally_dominant" if ungrounded else "rank:reducible_weakly_dominant_nonsingular")
+    judge_rank(ctx, R, A, r, "laplacian", tags)
+    judge_null(ctx, R, A, r, "laplacian", tags)
+    AH = refq.herm(A)
+    judge_rank(ctx, R, AH, r, "laplacian:conjugate_transpose", tags)
+    # a non-Hermitian relative with the same row structure: rows scaled by unit quaternions from the left (rank unchanged, still weakly dominant)
+    dq = np.zeros((n, n, 4))
+    for i_ in range(n):
+        dq[i_, i_] = units[int(rng.integers(0, 8))]
+    judge_rank(ctx, R, refq.matmul(refq.qa(dq), A), r, "laplacian:unit_row_scaling", tags)
 
 
 def _unimodular(rng, n):
